@@ -4,7 +4,7 @@ program language of coq/JobModel.v (src_job : prog = pre; while (cond) { body };
 The function body is tokenized and parsed (declarations, assert, if/else, while, switch (errno) with case
 labels, break/continue/return, expression statements); every condition and expression statement must be
 one the model knows (tables below), otherwise the translation fails with a GenError naming the text, which
-check.py C12 reports as a broken obligation.  Properties_C12.v states src_job = job_ref, the program the
+check.py C12 reports as a broken obligation.  Properties_C12_job.v states src_job = job_prog src_log_limit, the program (for any limit) the
 theorems are about: a moved statement, a new test of got_terminate, a changed errno list, a statement
 that slipped into or out of a block all change that theorem's input."""
 import os, re
@@ -318,17 +318,111 @@ def translate(src):
         raise TransError("job_accept has %d top-level loops, the model has one" % len(loops))
     k = loops[0]
     _, c, body_stmts = stmts[k]
-    return "mkprog\n  %s\n  (%s)\n  %s\n  %s" % (seq(stmts[:k]), c, seq(body_stmts), seq(stmts[k + 1:]))
+    return limit, "mkprog\n  %s\n  (%s)\n  %s\n  %s" % (seq(stmts[:k]), c, seq(body_stmts), seq(stmts[k + 1:]))
+
+
+SIGS = ["SIGHUP", "SIGINT", "SIGTERM"]
+FLAG = {"got_terminate = sig": "FTerm", "got_reconfig = sig": "FReconf"}
+
+
+def eval_sig_cond(toks, signame):
+    """value of a condition over `sig` (==, !=, ||, &&, !, parentheses) for sig = signame"""
+    toks = strip_parens(toks)
+    parts = split_top(toks, "||")
+    if len(parts) > 1:
+        return any(eval_sig_cond(p, signame) for p in parts)
+    parts = split_top(toks, "&&")
+    if len(parts) > 1:
+        return all(eval_sig_cond(p, signame) for p in parts)
+    if toks and toks[0] == "!":
+        return not eval_sig_cond(toks[1:], signame)
+    if len(toks) == 3 and toks[0] == "sig" and toks[1] in ("==", "!=") and re.fullmatch(r"SIG[A-Z0-9]+", toks[2]):
+        return (toks[2] == signame) == (toks[1] == "==")
+    raise TransError("sig_handler: condition not understood: `%s`" % " ".join(toks))
+
+
+def handler_of(p, signame):
+    """runs the statement list of sig_handler for one signal: which flag is assigned"""
+    flags = []
+
+    def block():
+        out = []
+        if p.peek() == "{":
+            p.eat("{")
+            while p.peek() != "}":
+                out.append(stmt())
+            p.eat("}")
+        else:
+            out.append(stmt())
+        return out
+
+    def stmt():
+        tok = p.peek()
+        if tok == "if":
+            p.eat()
+            c = p.paren()
+            a = block()
+            b = []
+            if p.peek() == "else":
+                p.eat()
+                b = block()
+            return ("if", c, a, b)
+        if tok == "return":
+            p.eat(); p.until_semicolon()
+            return ("return",)
+        txt = " ".join(p.until_semicolon())
+        if txt not in FLAG:
+            raise TransError("sig_handler: statement not understood: `%s`" % txt)
+        return ("set", FLAG[txt])
+
+    def run(stmts):
+        for st in stmts:
+            if st[0] == "if":
+                if run(st[2] if eval_sig_cond(st[1], signame) else st[3]):
+                    return True
+            elif st[0] == "return":
+                return True
+            else:
+                flags.append(st[1])
+        return False
+    prog = []
+    while p.peek() is not None:
+        prog.append(stmt())
+    run(prog)
+    if len(flags) > 1:
+        raise TransError("sig_handler assigns more than one flag for %s" % signame)
+    return flags[0] if flags else "FNone"
+
+
+def translate_handler(src):
+    src_nc = re.sub(r"/\*.*?\*/", " ", src, flags=re.S)
+    body = func_body(src_nc, "sig_handler")
+    res = {}
+    for sg in SIGS:
+        res[sg] = handler_of(Parser(tokenize(body), 0), sg)
+    hs = func_body(src_nc, "handle_signals")
+    if not re.search(r"sa\.sa_handler\s*=\s*sig_handler\s*;", hs) or not re.search(r"sa\.sa_flags\s*=\s*0\s*;", hs):
+        raise TransError("handle_signals: `sa.sa_handler = sig_handler; sa.sa_flags = 0;` not found")
+    installed = [sg for sg in re.findall(r"sig\s*=\s*(SIG[A-Z0-9]+)\s*;\s*rv\s*=\s*sigaction\s*\(\s*sig\s*,\s*&sa\s*,\s*NULL\s*\)", hs) if sg in SIGS]
+    return res, installed
 
 
 def gen(api):
     try:
-        term = translate(open(os.path.join(api.REPO, "src/munged/job.c")).read())
+        limit, term = translate(open(os.path.join(api.REPO, "src/munged/job.c")).read())
     except (TransError, OSError) as e:
         raise api.GenError("job: src/munged/job.c, job_accept: " + str(e))
+    try:
+        hres, installed = translate_handler(open(os.path.join(api.REPO, "src/munged/munged.c")).read())
+    except (TransError, OSError) as e:
+        raise api.GenError("job: src/munged/munged.c, sig_handler / handle_signals: " + str(e))
     out = "\n".join([
-        "(* GENERATED from the text of src/munged/job.c (job_accept) by tools/facts/job.py - do not edit *)",
+        "(* GENERATED from the text of src/munged/job.c (job_accept) and src/munged/munged.c (sig_handler, handle_signals) by tools/facts/job.py - do not edit *)",
         "From Coq Require Import List ZArith.", "From MV Require Import JobModel.",
         "Import ListNotations.", "Local Open Scope Z_scope.",
-        "Definition src_job : prog := " + term + ".", ""])
+        "(* #define LOG_LIMIT_SECS *)", "Definition src_log_limit : Z := %d." % limit,
+        "Definition src_job : prog := " + term + ".",
+        "(* munged.c: sig_handler evaluated for each signal; the signals handle_signals installs it for (sa_flags = 0) *)",
+        "Definition src_handler (s : sig) : sigflag := match s with %s end." % " | ".join("%s => %s" % (k, hres[k]) for k in SIGS),
+        "Definition src_installed : list sig := [%s]." % "; ".join(installed), ""])
     return api.write_gen("GenJob.v", out)
